@@ -1146,5 +1146,5 @@ func TestBothWindows(t *testing.T) {
 }
 
 func TestReplay(t *testing.T) {
-	kit.Replay(t, propBothWindows, propHistories, propFrameSize, propEarlyGrant, propBurst, propFit, propManyIDs)
+	kit.Replay(t, propGRPC, propBothWindows, propHistories, propFrameSize, propEarlyGrant, propBurst, propFit, propManyIDs)
 }
